@@ -445,9 +445,20 @@ func (h *Handler) isAllowed(ip net.IP) bool {
 }
 
 // AddAllowedRoute adds a CIDR route to the allowed routes list.
+// Adding a network that is already present is a no-op: a dynamic route that is
+// added again (a metric update) must not leave a second entry behind, because
+// RemoveAllowedRoute removes a single entry and the network would otherwise
+// stay allowed after its route has been removed.
 func (h *Handler) AddAllowedRoute(network *net.IPNet) {
 	h.routesMu.Lock()
 	defer h.routesMu.Unlock()
+
+	target := network.String()
+	for _, route := range h.cfg.AllowedRoutes {
+		if route.String() == target {
+			return
+		}
+	}
 	h.cfg.AllowedRoutes = append(h.cfg.AllowedRoutes, network)
 }
 
